@@ -303,11 +303,15 @@ def expect(state, m):
     def err():
         ex.allowed.append(Outcome('err'))
 
-    def not_found(cat):
+    def not_found(cat, *refs):
         # an unresolvable reference: raise, or warn (documented category) and
-        # leave everything as it was
+        # leave everything as it was.  When the unresolvable reference is a *blank or
+        # absent* tag (it names nothing) leaving everything as it was without a report is
+        # admissible too - C06 speaks of named elements that cannot be found.
         err()
         ok(unchanged, {cat: 1}, note='warn-unchanged')
+        if refs and any(r is None or r[0] != 'id' for r in refs):
+            ok(unchanged, {}, note='blank-reference-ignored')
 
     if k is None or m.level in ('none', 'ro'):
         ex.note = 'unclassifiable'
@@ -371,7 +375,7 @@ def expect(state, m):
                     ex.resolves = True
                     ex.classes.append('target=end')
                 else:
-                    not_found(SNF)
+                    not_found(SNF, m.target)
                     ex.classes.append('target-' + t)
             return ex
         if k in ('StoryReplace', 'EAStoryReplace'):
@@ -395,7 +399,7 @@ def expect(state, m):
                     ex.classes.append('same-id-replace')
                 ex.classes.append(f'replace-{"first" if i == 0 else "kth"}')
             else:
-                not_found(SNF)
+                not_found(SNF, m.target)
                 ex.classes.append('target-' + ('unknown' if t == 'id' else t))
             return ex
         if k == 'StorySend':
@@ -409,7 +413,7 @@ def expect(state, m):
                 ok(unchanged[:i] + pstate + unchanged[i + 1:])
                 ex.classes.append('resend-first' if i == 0 else 'resend-kth')
             else:
-                not_found(SNF)
+                not_found(SNF, m.story_ref)
                 ex.classes.append('send-' + ('unknown' if t == 'id' else t))
             return ex
         if k in ('StoryDelete', 'EAStoryDelete'):
@@ -439,7 +443,7 @@ def expect(state, m):
             st_, sv = m.sources[0]
             tt, tv = m.target
             if st_ != 'id' or sv not in sids:
-                not_found(SNF)
+                not_found(SNF, m.sources[0])
                 ex.classes.append('source-unresolved')
                 return ex
             if tt == 'id' and tv not in sids:
@@ -464,7 +468,7 @@ def expect(state, m):
                 return ex
             (ta, a), (tb, b) = m.sources
             if ta != 'id' or tb != 'id' or a not in sids or b not in sids:
-                not_found(SNF)
+                not_found(SNF, *[r for r in m.sources if r[0] != 'id' or r[1] not in sids])
                 ex.classes.append('operand-unresolved')
                 return ex
             if a == b:
@@ -527,7 +531,7 @@ def expect(state, m):
     if m.level == 'item':
         t, v = m.story_ref
         if not (t == 'id' and v in sids):
-            not_found(SNF)
+            not_found(SNF, m.story_ref)
             ex.classes.append('story-' + ('unknown' if t == 'id' else t))
             return ex
         if sids.count(v) != 1:
@@ -583,7 +587,7 @@ def expect(state, m):
                     ex.classes.append('same-id-replace')
                 ex.classes.append(f'replace-{"first" if i == 0 else "kth"}')
             else:
-                not_found(INF)
+                not_found(INF, m.target)
                 ex.classes.append('ref-' + ('unknown' if tt == 'id' else tt))
             return ex
         if k in ('ItemDelete', 'EAItemDelete'):
@@ -610,7 +614,7 @@ def expect(state, m):
                 return ex
             (ta, a), (tb, b) = m.sources
             if ta != 'id' or tb != 'id' or a not in iids or b not in iids:
-                not_found(INF)
+                not_found(INF, *[r for r in m.sources if r[0] != 'id' or r[1] not in iids])
                 ex.classes.append('operand-unresolved')
                 return ex
             if a == b:
